@@ -37,10 +37,6 @@ def run(rep, tier, seed):
                 blocks[-1].append(l.split()[0])
         per = dict(zip(THEOREMS, blocks)) if rc == 0 and len(blocks) == len(THEOREMS) else {'error': out[-500:]}
         rep.cov['print_assumptions_per_theorem'] = per
-    if tier == 'thorough' and info['built']:
-        rc, out = vlib.sh('timeout 900 coqchk -silent -o -R . GS GS.props.C12', cwd=vlib.COQ, timeout=930)
-        rep.obligation('coqchk -o GS.props.C12 (independent checker re-checks the compiled proofs)', rc == 0, out[-1500:])
-        rep.cov['coqchk_tail'] = out[-700:]
     # the float instance of the model used by the correspondence
     okf, logf = vlib.make(['lib/OptLoopF.vo'])
     rep.obligation('make lib/OptLoopF.vo (PrimFloat instance of the same model definition)', okf and vlib.vo_ok('lib/OptLoopF.vo'), logf[-1500:])
